@@ -40,6 +40,17 @@ J('A.wcsnlen_s', ['C02', 'C10', 'C05', 'C01'], 'A', 'contracts/str/strnlen_s.spe
   enforce='_wcsnlen_s_chk', functions=['_wcsnlen_s_chk'], sliced=False, timeout=600, fallback='B.q.wcsnlen_s',
   note='exact-fit object of symbolic size, smax any 64-bit value, object size known or unknown to the library')
 
+SCAN1 = [(1, 'strisalphanumeric_s'), (2, 'strisascii_s'), (3, 'strisdigit_s'), (4, 'strishex_s'), (5, 'strislowercase_s'),
+         (6, 'strismixedcase_s'), (7, 'strisuppercase_s'), (10, 'strzero_s'), (11, 'strset_s'), (12, 'strtolowercase_s'),
+         (13, 'strtouppercase_s'), (14, 'strnterminate_s')]
+for fn, nm in SCAN1:
+    src = 'src/extstr/%s.c' % nm
+    J('A.%s' % nm, ['C02', 'C05', 'C01'] + (['C10'] if fn <= 7 else ['C03', 'C06', 'C08']), 'A', 'contracts/extstr/scan1.spec.c',
+      defines=['FN=%d' % fn], sources=[src], overlays={src: 'contracts/extstr/scan1_%s.loops' % nm},
+      enforce='_%s_chk' % nm, functions=['_%s_chk' % nm], sliced=False, timeout=600,
+      fallback=('B.q.%s' % nm if fn <= 7 else None),
+      note='exact-fit object of symbolic size, dmax any 64-bit value, object size known or unknown to the library')
+
 # ---- engine B: copy / concatenate family against the reference model in harness/copyfam.c
 STR_COMMON = ['src/str/safe_str_constraint.c', 'src/str/strnlen_s.c', 'src/ignore_handler_s.c']
 WCS_COMMON = STR_COMMON + ['src/wchar/wcsnlen_s.c']
